@@ -378,7 +378,7 @@ impl Prop for C13 {
         ]
     }
     fn strategy(&self, tier: Tier) -> Option<(BoxedStrategy<Case>, u32)> {
-        Some((fstree::strategy(), tier.pick(3_000, 200_000)))
+        Some((fstree::strategy(), tier.pick(30_000, 400_000)))
     }
     fn check(&self, case: &Case, cx: &mut Ctx) -> Verdict {
         let e = expect(case);
